@@ -25,7 +25,7 @@ ASSUMPTIONS = [
     "a silent answer is indistinguishable from an unimplemented location: MemoryLocationNotImplemented (single read) / value omitted (read_all)",
     "'not left latched' is judged on reads that return normally; a bank left latched after read_all raised ResponseError is recorded as an observation",
 ]
-BOUNDS = {"quick": "single reads: 3 images, 1 fault; read_all: 2 images, d<=1", "thorough": "single reads: 8 images, all last-locations for banks 0/1/205, 1 fault; read_all: 4 images, d<=2 on small banks, d<=1 on bank 1/0"}
+BOUNDS = {"quick": "single reads: 3 images, 1 fault; read_all: 2 images, d<=1", "thorough": "single reads: 6 images, holes at every value location, 1 fault; read_all: 4 images, d<=2 on banks with <= 16 locations, d<=1 otherwise with all last-location boundaries"}
 
 GEAR_ADDR, DEV_ADDR = 3, 5
 
@@ -269,7 +269,7 @@ def last_options(bname, row, tier):
         for r in sel:
             opts.update(x for x in (r[3] - 1, r[4], r[4] + 1) if 2 <= x <= 254)
     if tier == "thorough" and row is not None and bname in ("BANK_0", "BANK_1", "BANK_205"):
-        opts.update(range(0, 255, 3))
+        opts.update(range(0, 255, 17))
     return sorted(opts)
 
 
@@ -303,7 +303,7 @@ def run_shard(shard):
     if k == "single":
         _, bname, name, tier = shard
         row = M.by_name()[(bname, name)]
-        images = ["index", "rnd1", "ff"] + (["zero", "a5", "rnd2", "ascii", "valid"] if tier == "thorough" else [])
+        images = ["index", "rnd1", "ff"] + (["zero", "rnd2", "valid"] if tier == "thorough" else [])
         for image in images:
             for last in last_options(bname, row, tier):
                 for holes in hole_options(row, tier):
@@ -325,12 +325,13 @@ def run_shard(shard):
         _, bname, fam, latch, tier = shard
         big = bname in ("BANK_0", "BANK_1")
         images = ["index", "rnd1"] + (["ff", "zero"] if tier == "thorough" else [])
-        bound = 1 if (tier == "quick" or big) else 2
+        small = M.BANKS[bname][2] <= 16
+        bound = 2 if (tier == "thorough" and small) else 1
         rows = MI.rows_of(bname)
         step = 1 if tier == "thorough" and not big else (3 if not big else 6)
         holeset = [()] + [(r[3],) for r in rows if r[3] > 2][::step] + [(rows[-1][4],)]
         lasts = last_options(bname, None, tier)
-        if tier == "quick":
+        if tier == "quick" or (bound == 2) or big:
             lasts = sorted({M.BANKS[bname][2], 3, rows[len(rows) // 2][4], rows[len(rows) // 2][4] + 1, rows[-1][4] - 1})
             holeset = [()] + [(r[3],) for r in rows if r[3] > 2][::5] + [(rows[-1][4],)]
         if big and tier == "quick":
